@@ -118,6 +118,28 @@ def conc_episodes(rng, thorough):
     return eps
 
 
+def seek_episodes(rng):
+    """the rotation as it stands after billions of requests: the counter is advanced in place to just
+    below 2^32 (and other positions a long-running process passes through), then picks go on"""
+    eps = []
+    for n in (3, 5, 6, 7, 2, 4):
+        for pos in (2**32, 2**31, 2**33, 2**48 + 7, 2**63):
+            ep = ["lb new round_robin 0 1 1 0 0 0 0 0 0 0 0 0"]
+            for i in range(n):
+                ep.append("lb add s%d 1 good" % i)
+            t = 0
+            for _ in range(rng.randint(0, n)):
+                t += 1
+                ep += ["lb begin %d 0 - - 10.0.0.1:1" % t, "lb end %d 0 200" % t]
+            ep.append("lb rrseek %d" % (pos - t - n - rng.randint(1, n)))
+            for _ in range(4 * n):
+                t += 1
+                ep += ["lb begin %d 0 - - 10.0.0.1:1" % t, "lb end %d 0 200" % t]
+            eps.append(ep)
+    rng.shuffle(eps)
+    return eps
+
+
 def oracle(ep, outs, known=None):
     conc = [(l, o) for l, o in zip(C.op_lines(ep), outs) if l.startswith("lb rrconc")]
     if conc:
@@ -155,7 +177,7 @@ def oracle(ep, outs, known=None):
 
     run_set_objs = []
     for line, o in zip(ol[1:], outs[1:]):
-        if o in ("hang", "bad-op"):
+        if o in ("hang", "bad-op") or o.startswith("resp aborted"):   # a panic in the balancer before any backend was contacted
             fails.append("%s -> %s" % (line, o))
             break
         w = line.split()
@@ -177,7 +199,7 @@ def oracle(ep, outs, known=None):
             if sh.strategy == "least_connections" and elig and o == "resp 503":
                 fails.append("least_connections: nothing chosen (503) with in-flight counts %s among the eligible backends (%s)" % (
                     sorted(x.inflight for x in elig), line))
-        if w[1] in ("add", "remove", "strategy"):
+        if w[1] in ("add", "remove", "strategy", "rrseek"):
             close_run()          # judged against the pool the run was made over, before it changes
             run_set = None
         info = sh.apply(line, o)
@@ -199,7 +221,8 @@ def check(ctx):
     d = C.Differential(ctx, binary)
     nep = 800 if ctx.thorough() else 150
     episodes = C.load_corpus(ID) + exhaustive_weight_episodes(ctx.rng, ctx.thorough()) + \
-        [gen_episode(ctx.rng, long=ctx.thorough()) for _ in range(nep)] + conc_episodes(ctx.rng, ctx.thorough())
+        [gen_episode(ctx.rng, long=ctx.thorough()) for _ in range(nep)] + conc_episodes(ctx.rng, ctx.thorough()) + \
+        seek_episodes(ctx.rng)[:30 if ctx.thorough() else 12]
     bad = d.check(episodes, oracle=oracle, label="dist")
     nontriv = set()
     strat_count = {}
